@@ -21,7 +21,7 @@ pub fn def() -> PropDef {
         run,
         shrink: Shrink::None,
         render,
-        rule: "{LOCAL, PROXY} x {unspec, stream, dgram} x every address value of UA (four families) x 6 fixed TLV lists; one address per family x every raw type byte 0..=255 (value lengths 0, 1, 300) and every TLV list of length <= 2 over 15 type bytes (12 named types through the enum, raw 0x00 0xEE 0xFF) x value lengths {0,1,2,255,256,257}, length-3 lists over a reduced menu, and lists sized to exactly 65534 / 65535 payload bytes; each built four ways: with_addresses(..).write_tlv(..)*, new(..).write_payload(addresses).write_payload(tlv)*, with_addresses(..).write_payloads(one batch), and write_tlv calls interleaved with reserve_capacity hints; output compared with the independent encoder, with the reference v2 verdict, and with what the real parser returns (command, transport, addresses, bytes, TLV sequence when a family is specified); non-trivial = every case; distinct = hash of the case",
+        rule: "{LOCAL, PROXY} x {unspec, stream, dgram} x every address value of UA (four families) x 6 fixed TLV lists; one address per family x every raw type byte 0..=255 (value lengths 0, 1, 300) and every TLV list of length <= 2 over 15 type bytes (12 named types through the enum, raw 0x00 0xEE 0xFF) x value lengths {0,1,2,255,256,257}, length-3 lists over a reduced menu, lists of 9..=24 items with varying value lengths, and lists sized to exactly 65534 / 65535 payload bytes; each built four ways: with_addresses(..).write_tlv(..)*, new(..).write_payload(addresses).write_payload(tlv)*, with_addresses(..).write_payloads(one batch), and write_tlv calls interleaved with reserve_capacity hints; output compared with the independent encoder, with the reference v2 verdict, and with what the real parser returns (command, transport, addresses, bytes, TLV sequence when a family is specified); non-trivial = every case; distinct = hash of the case",
         assumptions: &["TLV values are position-dependent byte patterns, plus every string up to length 5/6 over {00,01,02,03,FF,own type code}; not arbitrary bytes", "registered TLV type codes are copied from the specification text (PP2_TYPE_*)"],
     }
 }
@@ -393,6 +393,23 @@ pub fn list_cases(thorough: bool) -> Vec<Vec<u8>> {
         for sizes in [&[40000usize, 10, 10][..], &[33000, 1, 1, 1], &[20000, 20000, 20000, 5], &[1000; 60]] {
             let tl: Vec<TlvSpec> = sizes.iter().enumerate().map(|(i, l)| TlvSpec { mode: 0, kind: (i % 12) as u8, len: *l, explicit: None }).collect();
             cases.push(encode(1, 1, &a, &tl));
+        }
+        // lists of 9..=24 items whose value lengths differ from item to item (batching, look-ahead and per-item caches
+        // in either direction -- writing the list, parsing it back -- go wrong from the 9th or 17th item on)
+        for n in 9..=24usize {
+            for pat in 0..2usize {
+                let tl: Vec<TlvSpec> = (0..n)
+                    .map(|i| {
+                        let l = if pat == 0 { (i * 7 + 3) % 5 } else { (i * i + 1) % 11 };
+                        if i % 2 == 0 {
+                            TlvSpec { mode: 0, kind: (i % 12) as u8, len: l, explicit: None }
+                        } else {
+                            TlvSpec { mode: 1, kind: 0xe0 + i as u8, len: l, explicit: None }
+                        }
+                    })
+                    .collect();
+                cases.push(encode(1, 1, &a, &tl));
+            }
         }
         // totals of exactly 65533, 65534 and 65535 payload bytes
         let size = a.block().len();
